@@ -177,6 +177,16 @@ func c9Once(c *Ctx) {
 			infos = append(infos, onceInfo{n, fn, onceBody(mk), cl})
 		}
 	})
+	if mfn, _, _ := lazyMutexOnce(c); mfn != nil {
+		// the one-time evaluation done under the object's own mutex and a once-flag (decided by lazyMutexOnce): the same
+		// obligations, the method playing wrapper and closure at once and its Lock standing for the Do
+		for _, cl := range Calls(mfn) {
+			if IsCallTo(cl, "(*sync.Mutex).Lock") {
+				infos = append(infos, onceInfo{RecvNamed(mfn), mfn, mfn, cl})
+				break
+			}
+		}
+	}
 	if len(infos) == 0 {
 		c.Bad("R9.2", "sync.Once", "instances", token.NoPos, "no sync.Once usage found")
 		return
@@ -357,6 +367,15 @@ func c9Immutable(c *Ctx) {
 		skip := map[string]bool{}
 		if it.name == "lazyWithCore" {
 			skip["core"], skip["Once"] = true, true // published under sync.Once: R9.2
+			if mfn, flag, pub := lazyMutexOnce(c); mfn != nil {
+				// ... or under the object's own mutex and once-flag (lazyMutexOnce; R9.2 treats it alike)
+				skip[flag], skip[pub] = true, true
+				for i := 0; i < st.NumFields(); i++ {
+					if TStr(st.Field(i).Type()) == "sync.Mutex" {
+						skip[FN(st.Field(i))] = true
+					}
+				}
+			}
 		}
 		if it.name == "Writer" && it.pkg == "go.uber.org/zap/zapio" {
 			skip["buff"] = true // zapio.Writer is documented as not safe for concurrent use; only Log/Level must stay untouched
